@@ -67,6 +67,21 @@ Proof.
   unfold T2_map. reflexivity.
 Qed.
 
+(* the same for ANY transform acting as a map T of its own cube coordinates (non-rigid models, composites) *)
+Lemma points2_gen_is_world_map (T : list K -> list K) (ac : bool) (g g1 g2 : gridf) (A B : axes) (X : list K) :
+  (forall Y, length Y = D -> length (T Y) = D) ->
+  gwf D g -> gwf D g1 -> gwf D g2 -> length X = D ->
+  view_points2_gen D T ac g A g1 B g2 X = g_from_world D B g2 (world_map_gen D T ac g (g_to_world D A g1 X)).
+Proof.
+  intros HT Hg Hg1 Hg2 HX. unfold view_points2_gen, world_map_gen, g_from_world, g_to_world, gN, gS, gC, gD.
+  rewrite (pts2_is_T2_map K Kf Kc D HD A (cubeax ac)) by auto.
+  assert (L1 : length (T2_map D A (cubeax ac) (vtab D (fn_ g1)) (vtab D (fs_ g1)) (vtab D (fc_ g1)) (tab D D (fd_ g1))
+                          (vtab D (fn_ g)) (vtab D (fs_ g)) (vtab D (fc_ g)) (tab D D (fd_ g)) X) = D)
+    by (apply (T2_map_length K D HD); auto).
+  rewrite (pts2_is_T2_map K Kf Kc D HD (cubeax ac) B) by auto.
+  unfold T2_map. reflexivity.
+Qed.
+
 (* own grid on both sides (same-grid branch of Grid.transform_points), e.g. points(x, axes=WORLD) *)
 Lemma points_is_world_map (f : form) (a : nat -> nat -> K) (ac : bool) (g : gridf) (A B : axes) (X : list K) :
   gwf D g -> length X = D ->
